@@ -25,11 +25,15 @@ CHECKS = {
         engine="verus-units", design_ref="DESIGN.md §5 C01", technique="deductive verification (Verus/Z3) of function contracts on extracted real code",
         text="Unbounded proof, for every map state and every argument, that each store operation the commands get/get-safe/set/set-safe/remove/increment "
              "are built from (Database::get_value, set_value, set_value_version, set_value_as_ok, remove_value, inc_value, db_ops::get_key_value_new, remove_key) "
-             "satisfies the plain-map contract of the statement, including 'a refused command changes nothing' and whole-map frames. "
+             "satisfies the plain-map contract of the statement, including 'a refused command changes nothing' and whole-map frames; and that `keys <pattern>` "
+             "(the real Database::list_keys with its filter and map closures verbatim, get_function_by_pattern, starts_with / ends_with / contains) lists exactly the live keys "
+             "matching the prefix* / *suffix / contains pattern, each once, sorted, $$ keys only when the caller is entitled to them. "
              "Right level because the property is a statement about one data structure; wrong tool for the parser/dispatcher, which is left as glue.",
         level_note="Sequential semantics only (locks elided by extraction rule R2). Trusted: vstd HashMap/String specs, Display for Value prints its value, "
                    "uninterpreted i32<->text with parse(print(n))==Some(n), notify_watchers spec, derive(Clone) gives an equal value. "
-                   "NOT decided: the `keys` listing filter (iterator closure), parser and dispatcher glue.",
+                   "Unit listing: the iterator adapters iter/filter/map/collect and Vec::sort are trusted shims (the closures handed to them are the real ones and are "
+                   "verified against their own contracts), the fn pointers of get_function_by_pattern are defunctionalised, String order is uninterpreted. "
+                   "NOT decided: parser and dispatcher glue (which flag the Keys arm passes).",
     ),
     "C02": dict(
         engine="verus-units", design_ref="DESIGN.md §5 C02", technique="deductive verification (Verus/Z3) of function contracts on extracted real code",
@@ -52,8 +56,9 @@ CHECKS = {
              "carries a precondition that the caller contract provides only when the session may access the key - for a key starting with $$ that means an "
              "administrator session - so Verus rejects any path that reaches the closure without the check; a non-administrator asking for a $$ key gets an "
              "error whatever is stored; Database::remove_value refuses $$token for everybody and changes nothing; the REAL dispatcher arms of get / get-safe / "
-             "watch / set / increment / remove (extracted arm by arm, closure bodies abstracted) pass the request's own key through that guard. Bounded Kani "
-             "harness: filter_system_keys hides exactly the $$ prefix from non-admin listings.",
+             "watch / set / increment / remove (extracted arm by arm, closure bodies abstracted) pass the request's own key through that guard; the real "
+             "Database::list_keys (filter closure verbatim) and filter_system_keys list a $$ key only for a caller entitled to system keys. Bounded Kani "
+             "harness (thorough tier, not counted): filter_system_keys on 3-byte keys.",
         level_note="Dispatcher arms that bypass the guard (Resolve, Arbiter, rp) are NOT covered and the check does not claim noninterference for them. "
                    "str::starts_with is a trusted prefix test. Sequential semantics. The Kani harness is bounded (3-byte keys) and is not counted as proved.",
     ),
@@ -86,10 +91,12 @@ CHECKS = {
         text="Single-call clauses, single node, for all states: the Arbiter branch of try_resolve_conflict_response either refuses and changes nothing (no arbiter "
              "registered) or keeps the key's pre-conflict value and disk state, marks it in-conflict, records a pending notice under the $conflicts_ key, hands "
              "exactly one notice to the arbiter and touches no other key; resolve_conflit marks the notice resolved, stores the arbiter's value, and leaves the "
-             "in-conflict state exactly when the (trusted) listing reports nothing else pending. set_key_value / apply_change_to_db_try_fix_conflicts carry the "
-             "clause 'a refused write never changes the key' to the client-facing entry point.",
-        level_note="Trusted: the $conflicts_ listing (iterator pipeline), the arbiter send loop, format! texts (uninterpreted with three axioms). NOT decided: "
-                   "queue order across several writes, redelivery on arbiter reconnect (register_arbiter), multi-node resolve path, replicas.",
+             "in-conflict state exactly when no live notice of the key is unanswered (has_pendding_conflict and list_conflicts_keys are verified on their real bodies in "
+             "unit listing: every notice is looked at, not just the newest). register_arbiter (real loop, with invariants): the registering client becomes a watcher of "
+             "$conflicts and is sent exactly the unanswered notices, once each, in queue order; answered notices are dropped; nothing else in the store moves. "
+             "set_key_value / apply_change_to_db_try_fix_conflicts carry the clause 'a refused write never changes the key' to the client-facing entry point.",
+        level_note="Trusted: the iterator adapters behind the $conflicts_ listing (R11 shims; closures verified), the arbiter send loop, format! texts (uninterpreted with axioms). "
+                   "NOT decided: queue order across several writes, arbiter disconnects, multi-node resolve path, replicas.",
     ),
     "C16": dict(
         engine="verus-units", design_ref="DESIGN.md §5 C16", technique="deductive verification (Verus/Z3) of function contracts and representation invariants on extracted real code",
